@@ -34,6 +34,7 @@ func ReplayTape(vals []uint64) *Tape {
 	return &Tape{Vals: append([]uint64(nil), vals...), replay: true}
 }
 
+//go:norace
 func (t *Tape) next64() uint64 { // splitmix64
 	t.state += 0x9E3779B97F4A7C15
 	z := t.state
@@ -43,6 +44,7 @@ func (t *Tape) next64() uint64 { // splitmix64
 }
 
 // Draw returns a value in [0,n). n==0 returns 0 without consuming.
+//go:norace
 func (t *Tape) Draw(n int) int {
 	if n <= 1 {
 		return 0
@@ -68,6 +70,7 @@ func (t *Tape) Draw(n int) int {
 }
 
 // Bool is true with probability num/den. 0 on the tape means false.
+//go:norace
 func (t *Tape) Bool(num, den int) bool {
 	if num <= 0 {
 		return false
@@ -80,6 +83,7 @@ func (t *Tape) Bool(num, den int) bool {
 }
 
 // Range returns a value in [lo,hi].
+//go:norace
 func (t *Tape) Range(lo, hi int) int {
 	if hi <= lo {
 		return lo
@@ -88,6 +92,7 @@ func (t *Tape) Range(lo, hi int) int {
 }
 
 // Pick draws an index weighted by w; index 0 is the simplest choice.
+//go:norace
 func (t *Tape) Pick(w ...int) int {
 	sum := 0
 	for _, x := range w {
@@ -104,6 +109,7 @@ func (t *Tape) Pick(w ...int) int {
 }
 
 // Used returns the prefix of the tape consumed so far.
+//go:norace
 func (t *Tape) Used() []uint64 {
 	if t.pos > len(t.Vals) {
 		return t.Vals
@@ -112,18 +118,42 @@ func (t *Tape) Used() []uint64 {
 }
 
 // Pos is the number of draws so far.
+//go:norace
 func (t *Tape) Pos() int { return t.pos }
 
 // Fork derives an independent search-mode generator for bulk data that should
 // not be shrunk value by value (e.g. corruption bytes); it consumes one draw.
+//go:norace
 func (t *Tape) Fork() *Tape {
 	s := uint64(t.Draw(1 << 30))
 	return &Tape{state: s*0x9E3779B97F4A7C15 | 1}
 }
 
+// Force records v as if it had been drawn from [0,n) (enumerated schedules
+// write their decisions onto the tape so that replay and shrinking treat them
+// like any other run). In replay mode it simply replays.
+//
+//go:norace
+func (t *Tape) Force(v, n int) int {
+	if t.replay {
+		return t.Draw(n)
+	}
+	if n <= 1 {
+		return 0
+	}
+	if v >= n {
+		v = n - 1
+	}
+	t.Vals = append(t.Vals, uint64(v))
+	t.pos++
+	return v
+}
+
 // IsReplay reports whether the tape replays recorded values.
+//go:norace
 func (t *Tape) IsReplay() bool { return t.replay }
 
 // Rand returns a raw 64-bit value from a forked bulk generator (never from a
 // replay tape: call only on tapes returned by Fork).
+//go:norace
 func (t *Tape) Rand() uint64 { return t.next64() }
